@@ -216,6 +216,7 @@ static void mMergeObj(MNode &l, const MNode &r, Ctx &ctx) {
       if (lo != ro) { ctx.nontrivial = true; ctx.cls("merge-kind-conflict"); }
       if (lo && ro) {
         ctx.nontrivial = true; ctx.cls(slash ? "merge-recursive-slash-key" : "merge-recursive");
+        if (kv.second.obj.empty() && !it->second.obj.empty()) ctx.cls("merge-empty-object-onto-non-empty");
         mMergeObj(it->second, kv.second, ctx);
         continue;
       }
